@@ -18,6 +18,7 @@ pub const ARENA_SIZE: u64 = ARENA_PAGES * 4096;
 pub struct Arena {
     pub target: Target,
     view: *mut u8,
+    traced: bool,
 }
 
 thread_local! {
@@ -45,11 +46,30 @@ impl Arena {
             }
             p as *mut u8
         };
-        Ok(Arena { target, view })
+        Ok(Arena { target, view, traced: false })
     }
 
     pub fn pid(&self) -> i32 {
         self.target.pid
+    }
+
+    /// PTRACE_ATTACH the helper's main thread and leave it in ptrace-stop
+    /// (PTRACE_PEEKDATA needs a stopped tracee).  Idempotent.
+    pub fn ensure_traced(&mut self) -> bool {
+        if self.traced {
+            return true;
+        }
+        let pid = nix::unistd::Pid::from_raw(self.target.pid);
+        if nix::sys::ptrace::attach(pid).is_err() {
+            return false;
+        }
+        match nix::sys::wait::waitpid(pid, Some(nix::sys::wait::WaitPidFlag::__WALL)) {
+            Ok(nix::sys::wait::WaitStatus::Stopped(_, _)) => {
+                self.traced = true;
+                true
+            }
+            _ => false,
+        }
     }
 
     pub fn bytes(&mut self) -> &mut [u8] {
